@@ -3,6 +3,7 @@
    (model/Chain.v with the repaired dispatcher; orphan histories are the listed
    known finding and are excluded by [parent_ok]). *)
 From Saito Require Import Base Chain ChainBasics ChainInv ChainWind ChainAdd ChainProofs ChainCheck.
+From Saito Require Import PurgeInv PurgeWind PurgeAdd PurgeProofs PurgeCheck ChainPurge.
 
 (* the observation: stored blocks with their flags, spendable set, by-height index at
    every id, reported tip id and hash, Blockchain.last_block_id / last_block_hash.  (A record of these with function
@@ -58,3 +59,55 @@ Print Assumptions C04_rejected_no_trace.
 Print Assumptions C04_validate_steps_bounded.
 Print Assumptions C04_steps_bounded_any.
 Print Assumptions C04_steps_bounded.
+
+(* ================================================================================== *)
+(* ALL BLOCK IDS (model/ChainPurge.v, see the header in props/C03.v)                      *)
+(* ================================================================================== *)
+(* PARTIAL: a rejected block leaves stored blocks with flags, by-height index, reported tip,
+   last block and genesis_block_id exactly as they were, and the invariant with the same chain
+   (hence the ledger bounds of C03p_inv_meaning_partial); missing: equality of the spendable
+   set itself (it is not a function of the chain once slips of purged blocks can be resurrected,
+   C03p_ledger_exact_refuted), and the step bound of the dispatcher for the new model *)
+Theorem C04p_rejected_no_trace_partial : forall c U, puniv c U -> valid_wf U ->
+  forall ps lcs lcp b ps' r,
+  PInvW c U ps lcs lcp -> step_ok c U ps b -> add_block_p c ps b = Ok (ps', r) ->
+  r = Invalid \/ r = Exists \/ r = Retry ->
+  PInvW c U ps' lcs lcp
+  /\ blocks (core ps') = blocks (core ps)
+  /\ (forall id, lc_hash_at c (ring (core ps')) id = lc_hash_at c (ring (core ps)) id)
+  /\ latest_id (core ps') = latest_id (core ps) /\ latest_hash (core ps') = latest_hash (core ps)
+  /\ last_id (core ps') = last_id (core ps) /\ last_hash (core ps') = last_hash (core ps)
+  /\ gid ps' = gid ps.
+Proof. exact rejected_no_trace_p_partial. Qed.
+
+(* REFUTED without no_late: the purge runs inside wind_chain, i.e. also on behalf of a candidate
+   chain that is rejected afterwards.  gp = 2, chain 1..6; side chain 26 <- 27 on block 5, lighter;
+   then 28 (inflated burn fee, invalid): winding 27 (id 7) purges block 3; after the rejection the
+   tip is 6 again but block 3, its slip 30 and genesis_block_id = 4 are gone *)
+Lemma C04p_late_failure_trace_refuted :
+  exists ps ps',
+    phistory_check pw_cfg (pw_main ++ pw_late ++ [pw_late_b]) (hashes (pw_main ++ pw_late)) = true
+    /\ deliver_p pw_cfg (pinit pw_cfg) (pw_main ++ pw_late) = Ok ps
+    /\ step_ok_b pw_cfg (pw_main ++ pw_late ++ [pw_late_b]) ps pw_late_b = false
+    /\ get_block (core ps) (b_prev pw_late_b) <> None
+    /\ add_block_p pw_cfg ps pw_late_b = Ok (ps', Invalid)
+    /\ latest_hash (core ps) = Ok 6 /\ latest_hash (core ps') = Ok 6
+    /\ get_block (core ps) 3 <> None /\ get_block (core ps') 3 = None
+    /\ utxo (core ps) = [30; 40; 50; 60] /\ utxo (core ps') = [40; 50; 60]
+    /\ gid ps = 4 /\ gid ps' = 5.
+Proof. exact purge_late_failure_witness. Qed.
+
+(* REFUTED without no_late: with a candidate of five valid blocks the purge reaches the old tip;
+   restoring the old chain then unwraps a deleted block: add_block panics *)
+Lemma C04p_late_failure_panic_refuted :
+  exists ps,
+    phistory_check pw_cfg (pw_main ++ pw_long ++ [pw_long_b]) (hashes (pw_main ++ pw_long)) = true
+    /\ deliver_p pw_cfg (pinit pw_cfg) (pw_main ++ pw_long) = Ok ps
+    /\ step_ok_b pw_cfg (pw_main ++ pw_long ++ [pw_long_b]) ps pw_long_b = false
+    /\ get_block (core ps) (b_prev pw_long_b) <> None
+    /\ add_block_p pw_cfg ps pw_long_b = Panic SITE_UNWRAP_BLOCK.
+Proof. exact purge_late_failure_panic_witness. Qed.
+
+Print Assumptions C04p_rejected_no_trace_partial.
+Print Assumptions C04p_late_failure_trace_refuted.
+Print Assumptions C04p_late_failure_panic_refuted.
